@@ -10,7 +10,7 @@ import time
 from mc.core import Space, HarnessError, raised, VERIF, REPO
 
 ID = "C20"
-RULE = ("operation alphabet = one representative call of every public function/method (92 operations incl. randomised calls under a fixed NumPy "
+RULE = ("operation alphabet = one representative call of every public function/method (99 operations incl. randomised calls under a fixed NumPy "
         "seed and calls that raise); reference = each operation alone in a process forked from the pristine import state (cross-checked against "
         "truly fresh interpreters); explored: every single operation, every ordered pair (no state abstraction), triples over the stateful "
         "operations, and a BFS over canonical module states (data globals, __defaults__/__kwdefaults__, class attributes) where every operation "
@@ -26,7 +26,8 @@ _OPS = None
 R0 = {}            # op name -> canonical result of the operation alone from the pristine state
 S0 = None          # canonical pristine module state
 STATEFUL = ("kdtree", "kdtree-hamming", "kdtree-custom-ncpu2", "kdtree-short-list", "similarity_clustermap", "similarity_clustermap-norm", "similarity_clustermap-cbar_kws",
-            "hierarchical_clustering", "hierarchical_clustering-kws", "labels_to_colors_hls", "nearest_neighbor_tcrdist-kwargs", "seqlogos", "raise-kdtree-ncpu0", "pcDelta-maxseqs")
+            "hierarchical_clustering", "hierarchical_clustering-kws", "labels_to_colors_hls", "nearest_neighbor_tcrdist-kwargs", "seqlogos", "raise-kdtree-ncpu0", "pcDelta-maxseqs",
+            "kdtree-maxreturns-ncpu2", "pc_conditional-ndarray-weights")
 
 
 def ops():
